@@ -152,7 +152,13 @@ pub fn main(a: Args) -> i32 {
     let n = if a.tier == "thorough" { 2500 } else { 250 };
     let srcd = format!("{}/S", absout);
     let dstd = format!("{}/D r", absout); // a space in the destination root
-    let pool: Vec<Vec<u8>> = vec![b"".to_vec(), b"x".to_vec(), b"hello".to_vec(), b"HELLO".to_vec(), vec![7u8; 1000], vec![9u8; 300_000]];
+    // big contents: one long run of a byte, and contents with zero-filled 64 KiB blocks at the end / start / everywhere
+    // (lengths that are exact multiples of the copy buffer sizes a delivery routine would use)
+    let mut zero_tail: Vec<u8> = (0..65536u32).map(|i| (i.wrapping_mul(2654435761) >> 13) as u8 | 1).collect();
+    zero_tail.extend(std::iter::repeat(0u8).take(65536));
+    let mut zero_head: Vec<u8> = vec![0u8; 65536];
+    zero_head.extend((0..8192u32).map(|i| (i.wrapping_mul(40503) >> 5) as u8 | 1));
+    let pool: Vec<Vec<u8>> = vec![b"".to_vec(), b"x".to_vec(), b"hello".to_vec(), b"HELLO".to_vec(), vec![7u8; 1000], vec![9u8; 300_000], zero_tail, vec![0u8; 131_072], zero_head];
     let mtimes: [(i64, u32); 8] = [(0, 0), (1, 1), (1_000_000_000, 500_000_000), (1_000_000_000, 999_999_999), (2_147_483_647, 0), (2_147_483_648, 1), (4_294_967_297, 0), (1_700_000_000, 0)];
     let pats = ["*", "*.b", "a", "x y", "st*r", "wh?t", "?", "a/*", "*/a", "it's", "[br]", ".*", "c?d", "new*", "-dash", "?.b", "ün?", "??"];
     let mut nfail = 0u64;
@@ -173,7 +179,7 @@ pub fn main(a: Args) -> i32 {
             if clash(&p, &used) || p.ends_with(".copia-tmp") { continue; }
             used.push(p.clone());
             let big = (r.below(8) == 0) as usize;
-            let c = r.pick(&pool[..5 + big]).clone();
+            let c = if big == 1 && r.chance(1, 2) { r.pick(&pool[5..]).clone() } else { r.pick(&pool[..5 + big]).clone() };
             let (s, ns) = *r.pick(&mtimes);
             src.push((p.clone(), c.clone(), s, ns));
             match r.below(5) {
